@@ -609,7 +609,7 @@ func main() {
 		Rule: "programs of 2–4 goroutines × 1–3 operations over a small shared name set (each name consistently a file or a directory); for each program every schedule with at most 2 (quick) / 3 (thorough) preemptions at lock-acquisition granularity, each run in a child process; non-trivial = at least two operations of different goroutines touch a common name and the schedule preempts inside a multi-section operation; distinct by (program, schedule) hash"}
 	nPrograms, maxPre, maxSched := 120, 2, 400
 	if *tier == "thorough" {
-		nPrograms, maxPre, maxSched = 1500, 3, 3000
+		nPrograms, maxPre, maxSched = 600, 3, 2000
 	}
 	var jobs []Job
 	if *replay != "" {
